@@ -11,8 +11,8 @@ from ..harness import World, execute, place_summary, probe, violation
 
 LEVEL = "fault_enumeration"
 PLAN = {
-    "quick": {"mem": 16, "redis": 16, "rabbit": 16},
-    "thorough": {"mem": 64, "redis": 64, "rabbit": 64},
+    "quick": {"mem": 56, "redis": 28, "rabbit": 28},  # tasks = scenarios x PARTS
+    "thorough": {"mem": 256, "redis": 256, "rabbit": 256},
 }
 BUDGET = {"quick": 55, "thorough": 1500}
 RULE = (
@@ -30,12 +30,14 @@ ASSUMPTIONS = [
 ]
 SHRINK_LISTS = ("jobs",)
 
+_ORIG_RUNNER = None
 SLACK_US = 7_000_000  # 5 s consumer finish + 1 s health server + 1 s slack (constants in worker.py)
 
 
 def gen(rng, broker, tier):
     n = rng.randint(2, 8 if broker == "mem" else 6)
-    graceful = rng.choice([0, 0, 0.01, 1.0, 30.0])
+    # tiny positive periods make the forced cancellation land at timer-driven (not iteration-driven) instants
+    graceful = rng.choice([0, 0, 0.000002, 0.00001, 0.00004, 0.01, 1.0, 30.0])
     jobs = []
     for i in range(n):
         kind = rng.choice(["ok-short", "ok-short", "ok-long", "hang", "fail-retry", "fail-dead", "recurring", "ok-zero"])
@@ -66,7 +68,7 @@ def gen(rng, broker, tier):
         "jobs": jobs, "graceful_s": graceful, "tasks_limit": rng.choice([1, 2, 3, 4, 1000]),
         "end_us": rng.choice([600_000, 1_200_000, 2_500_000]),
         "policy_us": [rng.choice([0, 50_000, 300_000, 5_000_000])],
-        "knobs": {"step_cost": rng.choice([0, 0, 1, "rand"]),
+        "knobs": {"step_cost": rng.choice([0, 1, 1, 3, "rand"]),
                   "net": {"lat_lo": 50, "lat_hi": rng.choice([200, 2000, 20_000]), "frag_p": rng.choice([0, 0.2])}},
     }
 
@@ -85,8 +87,23 @@ async def _main(sim, sc, out):
     router = workload.build_router(state, [
         {"name": "a0", "queue": "q0", "policy": pol}, {"name": "a1", "queue": "q0", "policy": pol},
         {"name": "b0", "queue": "q1", "policy": pol}])
-    w = r.Worker(routers=[router], tasks_limit=sc["tasks_limit"], graceful_shutdown_time=sc["graceful_s"],
-                 _connection=connw)
+    graceful = 3600.0 if (fault and fault["kind"] == "force") else sc["graceful_s"]
+    w = r.Worker(routers=[router], tasks_limit=sc["tasks_limit"], graceful_shutdown_time=graceful, _connection=connw)
+    import repid.worker as _rw
+
+    runners: list = []
+    global _ORIG_RUNNER
+    if _ORIG_RUNNER is None:
+        _ORIG_RUNNER = _rw._Runner
+    _orig_runner = _ORIG_RUNNER
+
+    class _CapturingRunner(_orig_runner):  # harness-side seam: the forced cancellation is injected on this object
+        def __init__(self, *a, **k):
+            super().__init__(*a, **k)
+            runners.append(self)
+
+    _rw._Runner = _CapturingRunner
+    out["_restore"] = lambda: setattr(_rw, "_Runner", _orig_runner)
     await sim.loop.spawn("p", r.Worker(routers=[router], _connection=connp).declare_all_queues())
     enq: dict = {}
     prod = sim.loop.spawn("p", workload.producer(world, connp, sc["jobs"], enq))
@@ -118,8 +135,23 @@ async def _main(sim, sc, out):
         loop.kill("w")
         sim.count("process-kill")
 
+    force = {"us": None}
+
+    def do_force():
+        """the graceful period elapses exactly here: what stop_wait_and_cancel() does after its sleep"""
+        if force["us"] is not None or not runners or sig["us"] is None:
+            return
+        force["us"] = sim.clock.us
+        info["phase_vector_at_force"] = phase_vector(world, state, jobs)
+        runners[-1].cancel_event.set()
+        sim.count("forced-cancellation")
+
     if fault is not None:
-        sim.at_step(fault["step"], send_signal if fault["kind"] == "signal" else do_kill)
+        if fault["kind"] == "force":
+            sim.at_step(fault["sig_step"], send_signal)
+            sim.at_step(fault["step"], do_force)
+        else:
+            sim.at_step(fault["step"], send_signal if fault["kind"] == "signal" else do_kill)
     t0 = sim.clock.us
     info["k_run_start"] = loop.step
     wt = loop.spawn("w", w.run())
@@ -134,7 +166,8 @@ async def _main(sim, sc, out):
         await _check_crash_recovery(sim, sc, world, state, jobs, out, info, enq)
         return
     try:
-        await asyncio.wait_for(asyncio.shield(wt), timeout=sc["end_us"] / 1e6 + sc["graceful_s"] + 60)
+        await asyncio.wait_for(asyncio.shield(wt), timeout=sc["end_us"] / 1e6 + sc["graceful_s"] + 60 + (
+            4000 if fault and fault["kind"] == "force" else 0))
         returned = True
     except asyncio.TimeoutError:
         returned = False
@@ -148,8 +181,8 @@ async def _main(sim, sc, out):
     await prod
     await asyncio.sleep(0.5)
     info["t_ret_s"] = (t_ret - t0) / 1e6
-    pv = info.get("phase_vector") or ()
-    out["states"].append("|".join(pv))
+    pv = info.get("phase_vector_at_force") or info.get("phase_vector") or ()
+    out["states"].append(("F|" if fault and fault["kind"] == "force" else "") + "|".join(pv))
     out["nontrivial"] = any(p not in ("queued", "done", "absent", "not-enqueued") for p in pv)
     b = broker
     if raised is not None:
@@ -157,6 +190,10 @@ async def _main(sim, sc, out):
             "run-raised", f"C03/{b}/run-raised/{type(raised).__name__}/{_global_phase(pv)}", exc=repr(raised)[:300], phases=pv))
     elif not returned:
         out["violations"].append(violation("no-return", f"C03/{b}/no-return/{_global_phase(pv)}", phases=pv))
+    elif fault and fault["kind"] == "force":
+        if force["us"] is not None and t_ret - force["us"] > SLACK_US:
+            out["violations"].append(violation(
+                "late-return", f"C03/{b}/late-return-after-forced-cancel/{_global_phase(pv)}", after_force_s=(t_ret - force["us"]) / 1e6))
     elif sig["us"] is not None and t_ret - sig["us"] > sc["graceful_s"] * 1e6 + SLACK_US:
         out["violations"].append(violation(
             "late-return", f"C03/{b}/late-return/{_global_phase(pv)}", after_signal_s=(t_ret - sig["us"]) / 1e6))
@@ -437,6 +474,9 @@ async def _check_crash_recovery(sim, sc, world, state, jobs, out, info, enq):
 
 def run(sc):
     out = execute(_main, sc, step_cap=600_000)
+    restore = out.pop("_restore", None)
+    if restore:
+        restore()
     if out["abort"] and not (sc.get("fault") and sc["fault"]["kind"] == "kill" and out["abort"]["kind"] == "deadlock"):
         out["violations"].append(violation(
             "abort", f"C03/{sc['broker']}/abort-{out['abort']['kind']}", detail=out["abort"]["detail"]))
@@ -445,7 +485,12 @@ def run(sc):
 
 
 # ----------------------------------------------------------------------------- the sweep (one task = one scenario)
+PARTS = 4  # one scenario's sweep is split over this many tasks (better use of the cores)
+
+
 def task(spec):
+    part = spec["idx"] % PARTS
+    spec = dict(spec, idx=spec["idx"] // PARTS)
     run_seed = kernel.derive_seed(spec["seed"], spec["pid"], spec["broker"], spec["idx"])
     rng = random.Random(kernel.derive_seed(run_seed, "workload"))
     sc = gen(rng, spec["broker"], spec["tier"])
@@ -456,25 +501,37 @@ def task(spec):
     k0, k1 = info.get("k_registered"), info.get("signal_step")
     if ref["violations"] or k0 is None or k1 is None:
         return cli.summarize(sc, outs, keep_sample=spec["idx"] < 2)
-    busy = _busy_steps(sc)
+    busy, critical, terminal, terminal_exact = _busy_steps(sc)
     all_steps = list(range(k0 + 1, k1 + 1))
     full = spec["tier"] == "thorough" and spec["idx"] % 4 == 0
     frng = random.Random(kernel.derive_seed(run_seed, "faults"))
     if full:
         ks = all_steps
     else:
-        cap_busy = 260 if spec["tier"] == "thorough" else 60
+        cap_busy = 200 if spec["tier"] == "thorough" else 30
         cap_idle = 40 if spec["tier"] == "thorough" else 12
-        bs = [k for k in all_steps if k in busy]
-        idle = [k for k in all_steps if k not in busy]
+        # with a graceful period of 0 the forced cancellation lands a few dozen steps after the stop request:
+        # every step from which it can land inside ack/nack/reject/requeue is injected
+        term = [k for k in all_steps if k in terminal] if sc["graceful_s"] < 0.001 else []
+        if len(term) > 700:
+            term = sorted(frng.sample(term, 700))
+        crit = [k for k in all_steps if k in critical and k not in set(term)]
+        cap_crit = 500 if spec["tier"] == "thorough" else 60
+        if len(crit) > cap_crit:
+            crit = sorted(frng.sample(crit, cap_crit))
+        bs = [k for k in all_steps if k in busy and k not in critical]
+        idle = [k for k in all_steps if k not in busy and k not in critical]
         if len(bs) > cap_busy:
             bs = sorted(frng.sample(bs, cap_busy))
         if len(idle) > cap_idle:
             idle = sorted(frng.sample(idle, cap_idle))
-        ks = sorted(set(bs + idle))
+        ks = sorted(set(term + crit + bs + idle))
     kinds = ["signal"]
     if spec["broker"] == "redis":
         kinds.append("kill")
+    ks = ks[part::PARTS]
+    if part:
+        outs = []  # the reference run is counted by part 0 only
     for k in ks:
         for kind in kinds:
             if kind == "kill" and not full and frng.random() < 0.6:
@@ -482,14 +539,34 @@ def task(spec):
             s2 = copy.deepcopy(sc)
             s2["fault"] = {"kind": kind, "step": k}
             outs.append(run(s2))
-    return cli.summarize(sc, outs, keep_sample=spec["idx"] < 2,
-                         extra={"sweep": {"steps_in_run": len(all_steps), "busy": len(busy & set(all_steps)),
-                                          "injected": len(ks), "full": full}})
+    # forced cancellation (the graceful period elapsing) at every step at which a terminal broker call of an in-flight
+    # message is open, after a stop request a seeded number of steps earlier
+    n_force = 0
+    if not ref["violations"]:
+        cap_f = 400 if spec["tier"] == "thorough" else (70 if spec["broker"] == "mem" else 30)
+        tsteps = sorted(k for k in terminal_exact if k0 + 2 < k <= k1)
+        f2 = random.Random(kernel.derive_seed(run_seed, "force"))  # identical in every part of the scenario
+        if len(tsteps) > cap_f:
+            tsteps = sorted(f2.sample(tsteps, cap_f))
+        for k2 in tsteps[part::PARTS]:
+            d = random.Random(kernel.derive_seed(run_seed, "force", k2)).choice([1, 2, 3, 5, 8, 13, 30, 80])
+            s2 = copy.deepcopy(sc)
+            s2["fault"] = {"kind": "force", "step": k2, "sig_step": max(k0 + 1, k2 - d)}
+            outs.append(run(s2))
+            n_force += 1
+    if not outs:
+        outs = [ref]
+    return cli.summarize(sc, outs, keep_sample=spec["idx"] < 2 and part == 0,
+                         extra={"sweep": {"steps_in_run": len(all_steps), "busy": len(busy & set(all_steps)), "critical": len(critical & set(all_steps)),
+                                          "injected": len(ks), "forced": n_force, "full": full}})
 
 
 def _busy_steps(sc) -> set:
     """steps of the reference run at which a message is in flight or a call is open (instrumented re-run)"""
     busy: set = set()
+    critical: set = set()
+    terminal: set = set()
+    terminal_exact: set = set()
     s2 = copy.deepcopy(sc)
     s2["_mark_busy"] = True
     holder = {}
@@ -512,12 +589,22 @@ def _busy_steps(sc) -> set:
             st = holder["state"]
             if sum(st.inflight.values()) > 0 or holder["open"] > 0 or holder["delivered_open"]:
                 busy.add(step + 1)
+            if holder["open"] > 0:
+                # a broker/consumer/bucket call is open: the few-step windows the property is about; the forced
+                # cancellation follows the stop request by a few loop iterations, so the steps before count too
+                for d in range(-10, 2):
+                    critical.add(step + d)
+            if holder.get("open_terminal", 0) > 0:
+                terminal_exact.add(step)
+                terminal_exact.add(step + 1)
+                for d in range(-45, 2):
+                    terminal.add(step + d)
 
         loop.post_hooks.append(post)
         return _main_instrumented(sim, sc_, out, holder)
 
     _ex(factory, s2, step_cap=600_000)
-    return busy
+    return busy, critical, terminal, terminal_exact
 
 
 async def _main_instrumented(sim, sc, out, holder):
@@ -540,8 +627,12 @@ async def _main_instrumented(sim, sc, out, holder):
                     return
                 if phase == "begin":
                     holder["open"] += 1
+                    if rec_.op in ("ack", "nack", "requeue", "reject") and rec_.depth == 0:
+                        holder["open_terminal"] = holder.get("open_terminal", 0) + 1
                 elif rec_.outcome != "point":
                     holder["open"] -= 1
+                    if rec_.op in ("ack", "nack", "requeue", "reject") and rec_.depth == 0:
+                        holder["open_terminal"] = holder.get("open_terminal", 0) - 1
                     if rec_.op in ("ack", "nack", "requeue", "reject") and rec_.depth == 0:
                         holder["delivered_open"].discard(rec_.id)
 
